@@ -127,11 +127,12 @@ def _table_readonly(project, name):
 
 
 def _div4_builds_tuples(project):
-    f = project.fn(T + "._div4")
-    for n in own_nodes(f.node):
-        if isinstance(n, ast.Call) and dotted(n.func) == "Tile" and len(n.args) >= 2 and not isinstance(n.args[1], ast.Tuple):
-            return False
-    return True
+    """Every child built by _div4 carries its corners as a fresh tuple (decided on the evaluated children, not on the spelling)."""
+    from . import toastgeom
+    f, tile, kids, r = toastgeom.div4_facts(project)
+    if kids is None:
+        return False
+    return all(len(k) == 3 and k[1][0] == "tuple" and len(k[1][1]) == 4 for k in kids)
 
 
 def _r2_pruning(run):
